@@ -51,10 +51,12 @@ FIXED = {
         "spec": {"classes": _CL, "hooks": [], "deps": [], "methods": {
             "m0": _m(["o"], ["leaf"]), "m1": _m(["c", "K0"], ["next"]),
             "m2": _m(["c", "K1"], ["next2"]), "m3": _m(["c", "K2"], ["next"]),
+            # K3(K1, K2): this method is the unique first rank, its call_next meets an ambiguous rank
+            "m4": _m(["c", "K3"], ["next"]),
         }, "meta": _META1},
-        "regs": [["m0"], ["m1"], ["m2"], ["m3"]],
+        "regs": [["m0"], ["m1"], ["m2"], ["m3"], ["m4"]],
         "calls": [{"args": [["n", "K1", 0, []]]}, {"args": [["n", "K2", 0, []]]},
-                  {"args": [["int", 1]]}, {"args": [["n", "K3", 0, []]]}],  # K3(K1, K2): ambiguous
+                  {"args": [["int", 1]]}, {"args": [["n", "K3", 0, []]]}],  # K3: m4, then an ambiguous rank
     },
     "dep": {
         "spec": {"classes": _CL, "hooks": [{"name": "H0", "true_for": ["K0", "K1", "K3"]}],
